@@ -5,6 +5,8 @@
 //!                       and its sub-writers are dropped before the image is taken)
 //! FDISPLAY <f64 bits hex>...    Rust's `{}` of each f64, as `=hex` strings
 //! FDISPLAY32 <f32 bits hex>...  the same for f32
+//! FPARSE <=hex of text>...     Rust's `str::parse::<f64>()` of each text: 16 hex digits of the bit pattern (NaN canonical) or `err`
+//! FPARSE32 <=hex of text>...   the same for f32 (8 hex digits)
 //! IDISPLAY <i64 decimal>...     `{}` of i64 (sanity leg of the integer printing model), as `=hex`
 //!
 //! Tokens: string `=<hex of UTF-8 bytes>` (`=` alone: empty), absent `-`; f64 = 16 hex digits of the bit
@@ -775,6 +777,18 @@ pub fn run(kind: &str, toks: &[&str]) -> Option<String> {
         "METAWDEV" => Some(run_metawdev(toks)),
         "FDISPLAY" => Some(toks.iter().map(|t| hs(&format!("{}", f64b(t)))).collect::<Vec<_>>().join(" ")),
         "FDISPLAY32" => Some(toks.iter().map(|t| hs(&format!("{}", f32b(t)))).collect::<Vec<_>>().join(" ")),
+        "FPARSE" => Some(
+            toks.iter()
+                .map(|t| unstr(t).parse::<f64>().map(c64).unwrap_or("err".to_string()))
+                .collect::<Vec<_>>()
+                .join(" "),
+        ),
+        "FPARSE32" => Some(
+            toks.iter()
+                .map(|t| unstr(t).parse::<f32>().map(c32).unwrap_or("err".to_string()))
+                .collect::<Vec<_>>()
+                .join(" "),
+        ),
         "IDISPLAY" => Some(
             toks.iter()
                 .map(|t| {
